@@ -94,6 +94,15 @@ func dispatch(what, tier string, seed uint64, replay string) int {
 					return 0
 				}
 			}
+			if rf := readReplay(replay); rf.Kind == "lib:c14gc" {
+				if ok, why := c14GCReplayOK(a, rf); ok {
+					fmt.Printf("VIOLATION property=C14 replay=%s\n  reproduced: %s\n  %s\n", replay, rf.Sig, rf.Msg)
+					return 1
+				} else {
+					fmt.Printf("replay of %s did not reproduce: %s\n", replay, why)
+					return 0
+				}
+			}
 			return lc.replayCmd(a, replay)
 		}
 		return lc.run(a, tier, seed)
